@@ -341,6 +341,11 @@ func collectPackages(parentDir string, alreadyCollected map[string]*PackageInfo,
 		if collected.FilePath != parentInfo.FilePath {
 			return collected, validation.NewValidationError(fmt.Errorf("namespace '%s' conflicts with '%s'", parentInfo.Namespace, collected.FilePath), parentInfo.FilePath)
 		} else {
+			// The package may have been collected through a shorter import path:
+			// make sure the depth limit also holds along the current path.
+			if err := checkImportDepth(collected, depthRemaining); err != nil {
+				return collected, err
+			}
 			return collected, nil
 		}
 	}
@@ -374,6 +379,21 @@ func collectPackages(parentDir string, alreadyCollected map[string]*PackageInfo,
 	}
 
 	return parentInfo, nil
+}
+
+// Verifies that an already collected package and its imports fit within depthRemaining
+func checkImportDepth(p *PackageInfo, depthRemaining int) error {
+	if depthRemaining <= 0 {
+		return validation.NewValidationError(errors.New("reached maximum number of recursive imports"), p.FilePath)
+	}
+	for _, imp := range p.Imports {
+		if imp.Package != nil {
+			if err := checkImportDepth(imp.Package, depthRemaining-1); err != nil {
+				return err
+			}
+		}
+	}
+	return nil
 }
 
 // Fetch and cache each package version in pkgInfo.Versions
